@@ -433,6 +433,9 @@ class Normaliser:
                 prelude, body = inst
                 rets = [n for s in body for n in own_walk(s) if isinstance(n, ast.Return)]
                 if kind == "expr":
+                    if rets and all(r.value is None for r in rets):
+                        body = unguard(body)
+                        rets = [n for s in body for n in own_walk(s) if isinstance(n, ast.Return)]
                     if rets:
                         return None
                     return prelude + body
@@ -603,6 +606,35 @@ def merge_ifs(body: list) -> list:
                     setattr(n, f, _merge_list(lst))
     _flip(mod)
     return mod.body
+
+
+# ------------------------------------------------------------------------------------------------
+# guard clauses with a bare `return`  ->  nested if / else   (used on helpers that are inlined as statements)
+
+def unguard(body: list) -> list:
+    """`if c: S..; return` followed by REST  ->  `if c: S.. else: REST`; a bare `return` at the very end is dropped"""
+    out = []
+    for i, st in enumerate(body):
+        if isinstance(st, ast.Return) and st.value is None:
+            return out or [ast.Pass()]
+        if isinstance(st, ast.If):
+            b = [s for s in st.body if not isinstance(s, ast.Pass)]
+            o = [s for s in st.orelse if not isinstance(s, ast.Pass)]
+            rest = body[i + 1:]
+            if b and isinstance(b[-1], ast.Return) and b[-1].value is None and not terminates(o):
+                new = ast.If(test=st.test, body=unguard(b[:-1]) if b[:-1] else [ast.Pass()],
+                             orelse=unguard(o + rest) if (o + rest) else [])
+                if [s for s in new.orelse if not isinstance(s, ast.Pass)] == []:
+                    new.orelse = []
+                out.append(ast.fix_missing_locations(ast.copy_location(new, st)))
+                return out
+            if o and isinstance(o[-1], ast.Return) and o[-1].value is None and not terminates(b):
+                new = ast.If(test=st.test, body=unguard(b + rest) if (b + rest) else [ast.Pass()],
+                             orelse=unguard(o[:-1]) if o[:-1] else [])
+                out.append(ast.fix_missing_locations(ast.copy_location(new, st)))
+                return out
+        out.append(st)
+    return out or [ast.Pass()]
 
 
 # ------------------------------------------------------------------------------------------------
